@@ -89,6 +89,7 @@ def rule_sinks(ck: Check, repo: Repo, cg: CallGraph, ot: OrderTaint) -> None:
     roots = [MAIN] + [repo.qualname_of(cmds[c]) for c in ("lint", "lint-file", "spdx")] + ["reuse.report._MultiprocessingContainer.__call__"]
     reach = cg.reachable(roots)
     ck.extra["reachable_functions"] = len(reach)
+    ck.extra.setdefault("hygiene_scope", []).extend(sorted(reach))
     if len(reach) < 80:
         raise AnalysisError(f"reach set of lint/spdx too small: {len(reach)}")
     scope = sorted(reach)
@@ -160,8 +161,12 @@ def rule_pool(ck: Check, repo: Repo) -> None:
                     "the worker must re-parse .reuse/dep5 into project.global_licensing (the attribute the serial path reads)", repo.loc(c))
     init = repo.func("reuse.report._MultiprocessingContainer.__init__")
     s2 = re.sub(r"\s+", " ", ast.unparse(init))
-    for frag in ("licenses=project.licenses.copy()", "license_map=project.license_map", "vcs_strategy=project.vcs_strategy",
-                 "new_project.licenses_without_extension = project.licenses_without_extension"):
+    # a hand-made copy of the project must carry the state along; when the container keeps the caller's object (or
+    # copies it wholesale with attrs.evolve / copy.copy) there is nothing to lose here - R6 decides what it may do to it
+    builds_copy = any(isinstance(c, ast.Call) and ast.unparse(c.func) == "Project" for c in ast.walk(init))
+    r.instance("worker-copy", {"hand_made_copy": builds_copy})
+    for frag in (("licenses=project.licenses.copy()", "license_map=project.license_map", "vcs_strategy=project.vcs_strategy",
+                  "new_project.licenses_without_extension = project.licenses_without_extension") if builds_copy else ()):
         r.instance(f"worker-copy:{frag[:30]}", {"present": frag in s2})
         if frag not in s2:
             r.violation("reuse.report._MultiprocessingContainer.__init__", "project copy for workers loses state", f"missing {frag}",
@@ -210,6 +215,10 @@ def _param_fresh_at_all_sites(repo: Repo, cg: CallGraph, fr, reach, q: str, recv
     return True
 
 
+DRIVERS = ["reuse.report._MultiprocessingContainer.__init__", "reuse.report.ProjectReport.generate",
+           "reuse.report.ProjectSubsetReport.generate", "reuse.report._generate_file_reports"]
+
+
 def rule_task_purity(ck: Check, repo: Repo, cg: CallGraph, rid: str = "R6") -> None:
     """The result for one file may not depend on which files the same process handled before (serial run vs pool
     chunks vs enumeration order).  Structural necessary condition: the per-file task mutates in place only objects it
@@ -249,6 +258,23 @@ def rule_task_purity(ck: Check, repo: Repo, cg: CallGraph, rid: str = "R6") -> N
                         f" the result for later files depends on which files this process handled before - serial run, pool"
                         f" chunks and enumeration order can then disagree", repo.loc(node))
     r.floor(40, "mutation sites in the per-file task", got=n_sites)
+    # the drivers around the task: building a report must not change the Project it is handed - with a pool the workers
+    # see pickled copies, so a change (and its undoing inside the task) reaches the caller's object only in the serial run
+    n_drv = 0
+    for q in DRIVERS:
+        if q not in repo.functions:
+            raise AnalysisError(f"anchor vanished: {q}")
+        ck.analysed_fn(q)
+        for node, recv, what, ok in fr.mutations(repo.functions[q], q):
+            n_drv += 1
+            r.instance(f"{q}:{what}@drv{n_drv}", {"function": q, "mutation": what, "own_object": ok}, q)
+            if not ok:
+                r.violation(q, f"report generation changes an object it was handed: {what}",
+                            f"`{ast.unparse(node)[:80]}`: the caller's object is altered while a report is built; workers of a pool only"
+                            f" ever see (and repair) pickled copies, so after a pooled run the caller's Project differs from what a serial"
+                            f" run leaves behind - the next report from the same Project depends on how the previous one was scheduled",
+                            repo.loc(node))
+    r.floor(15, "mutation sites in the report drivers", got=n_drv)
     # positive control: the engine must see a mutation through a loop variable as not-own
     ctl = ast.parse("def f(infos):\n    out = []\n    for i in infos:\n        i.lines.clear()\n        out.append(i)\n    return out\n").body[0]
     got = [(w, ok) for _, _, w, ok in fr.mutations(ctl, "ctl.f")]
